@@ -321,6 +321,10 @@ func (r *lockRoles) heldFlagTestVL(f ir.Fact) (over, reads bool) {
 		if notHeld, _, known := cmpNotHeld(cm); known {
 			return notHeld, true
 		}
+		// a tenure-over word: set by Unlock, reset by every way of starting a tenure (v_lock_g1.go)
+		if over, w, _ := r.tenureWordTestVG(cm); w != nil && over {
+			return true, true
+		}
 		// a tenure generation: a word of the Locker (read atomically) differs from the value this attempt was armed with
 		// (a parameter or captured variable of the running function) - the Locker has moved on since
 		if cm.Op == token.NEQ {
@@ -464,7 +468,7 @@ func (c *Ctx) renewalAttemptsUnlessTenureOver(r *lockRoles, rule string) {
 		case err != nil:
 			c.Undecided(rule, where, cons, nil, err.Error())
 		case w != nil:
-			c.Decide(rule, where, cons, w.End, false, what+": path "+w.String(c.P))
+			c.Decide(rule, where, cons, w.End, false, what+r.tenureWordDiagnosisVG(fn)+": path "+w.String(c.P))
 		default:
 			c.Decide(rule, where, cons, nil, true, "")
 		}
